@@ -159,3 +159,97 @@ def sico_x0(f_co):
     x = [0.0] * 15
     x[5], x[10] = f_co, 1.0 - f_co
     return x
+
+
+# ---------------------------------------------------------------------------------------------------------------
+# synthetic chemistry for solver-level properties: elements X, Y with atoms, ions, negative ions, molecules
+def synth_element(rng, el, with_neg=None, max_charge=None):
+    """species of one element: el, el+, el++ (, el-) with increasing ionisation energies"""
+    M = rng.uniform(4e-3, 0.06)
+    ie = [rng.uniform(6, 14) * EV, rng.uniform(18, 35) * EV, rng.uniform(40, 70) * EV]
+    max_charge = rng.choice([1, 2, 2]) if max_charge is None else max_charge
+    out = {}
+    for z in range(0, max_charge + 1):
+        lv = rand_levels(rng, ie[z], rng.choice([1, 3, 6]), "sorted")
+        nm = el + "+" * z
+        out[nm] = _sp.Monatomic(nm, {el: 1}, M - z * 5.4858e-7, z, ie[z], lv, 10 ** rng.uniform(-30.5, -29.5), rng.choice([1, 2, 3]),
+                                rng.uniform(2, 8) if z == 0 else None, rand_ecs(rng) if z == 0 else None, [], ["synthetic"])
+    if with_neg if with_neg is not None else rng.random() < 0.4:
+        out[el + "-"] = _sp.Monatomic(el + "-", {el: 1}, M + 5.4858e-7, -1, rng.uniform(0.5, 3.0) * EV, [[0.5, 0.0]],
+                                      10 ** rng.uniform(-30.5, -29.5), 2, None, None, [], ["synthetic"])
+    return out, M
+
+
+def synth_molecule(rng, name, stoich, masses, charge=0):
+    M = sum(masses[e] * c for e, c in stoich.items()) - charge * 5.4858e-7
+    n = sum(stoich.values())
+    ie = rng.uniform(8, 16) * EV if charge <= 0 else float("inf")
+    if charge < 0:
+        ie = rng.uniform(0.3, 2.5) * EV
+    de = rng.uniform(2, 11) * EV
+    common_args = (10 ** rng.uniform(-30.5, -29.5), rng.choice([1, 2, 3]), rng.uniform(4, 16) if charge == 0 else None,
+                   rand_ecs(rng) if charge == 0 else None, [], ["synthetic"])
+    if n == 2:
+        return _sp.Diatomic(name, stoich, M, charge, ie, de, 2 if len(stoich) == 1 else 1, rng.choice([1, 2, 3]),
+                            rng.uniform(0.05, 0.4) * EV, rng.uniform(1e-4, 3e-3) * EV, *common_args)
+    linear = rng.random() < 0.5
+    nmodes = 3 * n - (5 if linear else 6)
+    return _sp.Polyatomic(name, stoich, M, charge, ie, de * (n - 1) / 1.5, linear, rng.choice([1, 2, 3]), rng.choice([1, 2]),
+                          degenerate_modes(rng, min(nmodes, 12)), [rng.uniform(1e-4, 3e-3) * EV for _ in range(3)], *common_args)
+
+
+def rand_mixture_spec(rng, kind=None):
+    """-> (species list (heavy, any order), x0, description).  kinds: shipped oxygen / Si-C-O subsets in random order,
+    synthetic one- and two-element sets with negative ions, gaps in charge chains, diatomic and polyatomic molecules."""
+    kind = kind or rng.choice(["oxy", "sico", "synth1", "synth2", "synth2"])
+    if kind == "oxy":
+        names = list(OXY)
+        if rng.random() < 0.5:
+            names = [n for n in names if n not in rng.sample(["O-", "O++", "O2+"], rng.randint(0, 2))]
+        rng.shuffle(names)
+        sps = [shipped(n) for n in names]
+        x0 = [rng.random() if s.charge_number == 0 else 0.0 for s in sps]
+    elif kind == "sico":
+        names = list(SICO)
+        drop = rng.sample(["O++", "C++", "Si++", "O2+", "CO+", "SiO+", "O2"], rng.randint(0, 4))
+        names = [n for n in names if n not in drop]
+        rng.shuffle(names)
+        sps = [shipped(n) for n in names]
+        x0 = [rng.random() if n in ("CO", "SiO", "O", "C", "Si") else 0.0 for n in names]
+        for need, srcs in (("C", ["CO", "C"]), ("Si", ["SiO", "Si"]), ("O", ["CO", "SiO", "O"])):
+            if not any(x0[names.index(s)] > 0 for s in srcs if s in names):
+                x0[names.index(srcs[0])] = 0.3
+    else:
+        els = ["X"] if kind == "synth1" else ["X", "Y"]
+        pool, masses = {}, {}
+        for el in els:
+            d, M = synth_element(rng, el)
+            pool.update(d)
+            masses[el] = M
+        if rng.random() < 0.7:
+            pool["X2"] = synth_molecule(rng, "X2", {"X": 2}, masses)
+            if rng.random() < 0.5:
+                pool["X2+"] = synth_molecule(rng, "X2+", {"X": 2}, masses, 1)
+            if rng.random() < 0.3:
+                pool["X2-"] = synth_molecule(rng, "X2-", {"X": 2}, masses, -1)
+        if len(els) == 2:
+            if rng.random() < 0.7:
+                pool["XY"] = synth_molecule(rng, "XY", {"X": 1, "Y": 1}, masses)
+                if rng.random() < 0.4:
+                    pool["XY+"] = synth_molecule(rng, "XY+", {"X": 1, "Y": 1}, masses, 1)
+            if rng.random() < 0.5:
+                pool["XY2"] = synth_molecule(rng, "XY2", {"X": 1, "Y": 2}, masses)
+        # a gap in a charge chain (X, X++ without X+) now and then: the code chains to the nearest listed stage
+        if "X++" in pool and rng.random() < 0.15:
+            del pool["X+"]
+        names = list(pool)
+        rng.shuffle(names)
+        sps = [pool[n] for n in names]
+        x0 = [rng.random() if s.charge_number == 0 else 0.0 for s in sps]
+        for el in els:   # every element present
+            if not any(x > 0 and el in s.stoichiometry for x, s in zip(x0, sps)):
+                i = next(i for i, s in enumerate(sps) if el in s.stoichiometry and s.charge_number == 0)
+                x0[i] = 0.5
+    tot = sum(x0)
+    x0 = [x / tot for x in x0]
+    return sps, x0, kind
